@@ -208,9 +208,9 @@ fn plan_subobjects(env: &Env, x: &str, off_expr: &str, shared: bool, out: &mut V
 
 fn conv_to_u64(p: &Prim, expr: &str) -> String {
     match p {
-        Prim::Bool | Prim::Int { .. } => format!("({expr}) as u64"),
-        Prim::Float { .. } => format!("({expr}).to_bits() as u64"),
-        Prim::Ptr => format!("({expr}) as usize as u64"),
+        Prim::Bool | Prim::Int { .. } => format!("({expr}) as ::core::primitive::u64"),
+        Prim::Float { .. } => format!("({expr}).to_bits() as ::core::primitive::u64"),
+        Prim::Ptr => format!("({expr}) as ::core::primitive::usize as ::core::primitive::u64"),
         Prim::Other => "0u64".to_string(),
     }
 }
@@ -219,9 +219,9 @@ fn conv_from_u64(p: &Prim, ty_text: &str, expr: &str) -> String {
     match p {
         Prim::Bool => format!("(({expr}) & 1) != 0"),
         Prim::Int { .. } => format!("({expr}) as {ty_text}"),
-        Prim::Float { bits: 32 } => format!("f32::from_bits(({expr}) as u32)"),
-        Prim::Float { .. } => format!("f64::from_bits({expr})"),
-        Prim::Ptr => format!("({expr}) as usize as {ty_text}"),
+        Prim::Float { bits: 32 } => format!("::core::primitive::f32::from_bits(({expr}) as ::core::primitive::u32)"),
+        Prim::Float { .. } => format!("::core::primitive::f64::from_bits({expr})"),
+        Prim::Ptr => format!("({expr}) as ::core::primitive::usize as {ty_text}"),
         Prim::Other => "unreachable!()".to_string(),
     }
 }
@@ -230,19 +230,19 @@ fn arg_literal(p: &Prim, ty_text: &str, rng: &mut Rng) -> (String, u64) {
     match p {
         Prim::Bool => {
             let b = rng.coin();
-            (format!("{b}"), b as u64)
+            (format!("{b}"), b as ::core::primitive::u64)
         }
         Prim::Int { .. } => {
             let v = rng.next_u64() | 1;
             (format!("({v:#x}u64 as {ty_text})"), v)
         }
         Prim::Float { bits: 32 } => {
-            let v = (rng.next_u64() as u32) & 0x7F7F_FFFF;
-            (format!("f32::from_bits({v:#x}u32)"), v as u64)
+            let v = (rng.next_u64() as ::core::primitive::u32) & 0x7F7F_FFFF;
+            (format!("::core::primitive::f32::from_bits({v:#x}u32)"), v as ::core::primitive::u64)
         }
         Prim::Float { .. } => {
             let v = rng.next_u64() & 0x7FEF_FFFF_FFFF_FFFF;
-            (format!("f64::from_bits({v:#x}u64)"), v)
+            (format!("::core::primitive::f64::from_bits({v:#x}u64)"), v)
         }
         Prim::Ptr => {
             let v = (rng.next_u64() & 0x0000_7FFF_FFFF_FFF0) | 0x10;
@@ -392,9 +392,9 @@ impl ExecBuilder {
                         "        unsafe {{ __tbl{k}.put_fn({i} * 8, crate::{owner_mod}::__stub_{id} as *const ()); }}\n"
                     ));
                 }
-                code.push_str(&format!("        unsafe {{ __o.put_ptr({}, __tbl{k}.ptr as *const u8); }}\n", so.off_expr));
+                code.push_str(&format!("        unsafe {{ __o.put_ptr({}, __tbl{k}.ptr as *const ::core::primitive::u8); }}\n", so.off_expr));
                 if k == 0 && env.has_vftable(path) {
-                    code.push_str(&format!("        crate::rt::val(\"primary_table\", __tbl{k}.addr());\n        crate::rt::val(\"primary_off\", ({}) as u64);\n", so.off_expr));
+                    code.push_str(&format!("        crate::rt::val(\"primary_table\", __tbl{k}.addr());\n        crate::rt::val(\"primary_off\", ({}) as ::core::primitive::u64);\n", so.off_expr));
                 }
             }
             Some((code, placeholders))
@@ -418,7 +418,7 @@ impl ExecBuilder {
                             continue;
                         }
                         if let Some(a) = attr_int(&ed.attributes, "singleton") {
-                            self.enum_singleton(pc, b, case, &mps, tname, a as u64, ed, ef, st, &mut exps, rng);
+                            self.enum_singleton(pc, b, case, &mps, tname, a as ::core::primitive::u64, ed, ef, st, &mut exps, rng);
                         }
                         continue;
                     }
@@ -431,7 +431,7 @@ impl ExecBuilder {
                             self.c06_static(&env, b, &path, &mps, tname, st);
                             if let Some((tables, _)) = table_setup(&path) {
                                 let body = format!(
-                                    "{}{}        let __t = unsafe {{ &*(__o.ptr as *const {tname}) }};\n        crate::rt::val(\"accessor\", __t.vftable() as usize as u64);\n",
+                                    "{}{}        let __t = unsafe {{ &*(__o.ptr as *const {tname}) }};\n        crate::rt::val(\"accessor\", __t.vftable() as ::core::primitive::usize as ::core::primitive::u64);\n",
                                     obj_setup(tname),
                                     tables
                                 );
@@ -560,7 +560,7 @@ impl ExecBuilder {
                         // ---------- C15: struct singleton ------------------------------------
                         if self.wants("C15") {
                             if let Some(a) = attr_int(&td.attributes, "singleton") {
-                                self.struct_singleton(pc, case, &mps, &path, tname, a as u64, ef, st, &mut exps, rng);
+                                self.struct_singleton(pc, case, &mps, &path, tname, a as ::core::primitive::u64, ef, st, &mut exps, rng);
                             }
                         }
                     }
@@ -605,13 +605,13 @@ impl ExecBuilder {
         let mut body = String::new();
         body.push_str(obj_setup);
         body.push_str(tables);
-        body.push_str(&format!("        crate::rt::val(\"recv_off\", ({recv_off_expr}) as u64);\n"));
+        body.push_str(&format!("        crate::rt::val(\"recv_off\", ({recv_off_expr}) as ::core::primitive::u64);\n"));
         if let Callee::Abs(a) = &callee {
             body.push_str(&format!(
                 "        if !crate::rt::trampoline({a:#x}usize) {{ crate::rt::note(\"unmappable\", \"address not mappable in this process\"); return; }}\n"
             ));
         }
-        let words = args.len() as u64 + if recv.is_some() { 1 } else { 0 };
+        let words = args.len() as ::core::primitive::u64 + if recv.is_some() { 1 } else { 0 };
         body.push_str(&format!("        crate::rt::expect_words({words});\n"));
         // bool returns must be a valid bool: let the callee hand back 0/1
         if let Some(Prim::Bool) = ret_prim {
@@ -842,11 +842,11 @@ impl ExecBuilder {
                 let off = chain.iter().map(|(t, f)| format!("::std::mem::offset_of!({}, {f})", rust_path(t))).collect::<Vec<_>>().join(" + ");
                 let body = if mutable {
                     format!(
-                        "        let __o = crate::rt::Obj::new(::std::mem::size_of::<{tname}>(), ::std::mem::align_of::<{tname}>(), 0x5A);\n        crate::rt::val(\"obj\", __o.addr());\n        crate::rt::val(\"want_delta\", ({off}) as u64);\n        let __t = unsafe {{ &mut *(__o.ptr as *mut {tname}) }};\n        let __r: &mut {target} = <{tname} as ::std::convert::AsMut<{target}>>::as_mut(__t);\n        crate::rt::val(\"got\", __r as *mut {target} as usize as u64);\n"
+                        "        let __o = crate::rt::Obj::new(::std::mem::size_of::<{tname}>(), ::std::mem::align_of::<{tname}>(), 0x5A);\n        crate::rt::val(\"obj\", __o.addr());\n        crate::rt::val(\"want_delta\", ({off}) as ::core::primitive::u64);\n        let __t = unsafe {{ &mut *(__o.ptr as *mut {tname}) }};\n        let __r: &mut {target} = <{tname} as ::std::convert::AsMut<{target}>>::as_mut(__t);\n        crate::rt::val(\"got\", __r as *mut {target} as ::core::primitive::usize as ::core::primitive::u64);\n"
                     )
                 } else {
                     format!(
-                        "        let __o = crate::rt::Obj::new(::std::mem::size_of::<{tname}>(), ::std::mem::align_of::<{tname}>(), 0x5A);\n        crate::rt::val(\"obj\", __o.addr());\n        crate::rt::val(\"want_delta\", ({off}) as u64);\n        let __t = unsafe {{ &*(__o.ptr as *const {tname}) }};\n        let __r: &{target} = <{tname} as ::std::convert::AsRef<{target}>>::as_ref(__t);\n        crate::rt::val(\"got\", __r as *const {target} as usize as u64);\n"
+                        "        let __o = crate::rt::Obj::new(::std::mem::size_of::<{tname}>(), ::std::mem::align_of::<{tname}>(), 0x5A);\n        crate::rt::val(\"obj\", __o.addr());\n        crate::rt::val(\"want_delta\", ({off}) as ::core::primitive::u64);\n        let __t = unsafe {{ &*(__o.ptr as *const {tname}) }};\n        let __r: &{target} = <{tname} as ::std::convert::AsRef<{target}>>::as_ref(__t);\n        crate::rt::val(\"got\", __r as *const {target} as ::core::primitive::usize as ::core::primitive::u64);\n"
                     )
                 };
                 let step = pc.add_step(mps, false, body);
@@ -887,7 +887,7 @@ impl ExecBuilder {
         let null = rng.chance(1, 4);
         let ptr_expr = if null { "0u64".to_string() } else { "__o.addr()".to_string() };
         let body = format!(
-            "        let __o = crate::rt::Obj::new(::std::mem::size_of::<{tname}>().max(1), ::std::mem::align_of::<{tname}>(), 0x3C);\n        let __p: u64 = {ptr_expr};\n        crate::rt::val(\"stored\", __p);\n        if !crate::rt::data({addr:#x}usize, &__p.to_le_bytes()) {{ crate::rt::note(\"unmappable\", \"\"); return; }}\n        let __g = unsafe {{ {tname}::get() }};\n        crate::rt::val(\"got\", match __g {{ Some(r) => r as *mut {tname} as usize as u64, None => 0 }});\n"
+            "        let __o = crate::rt::Obj::new(::std::mem::size_of::<{tname}>().max(1), ::std::mem::align_of::<{tname}>(), 0x3C);\n        let __p: ::core::primitive::u64 = {ptr_expr};\n        crate::rt::val(\"stored\", __p);\n        if !crate::rt::data({addr:#x}usize, &__p.to_le_bytes()) {{ crate::rt::note(\"unmappable\", \"\"); return; }}\n        let __g = unsafe {{ {tname}::get() }};\n        crate::rt::val(\"got\", match __g {{ Some(r) => r as *mut {tname} as ::core::primitive::usize as ::core::primitive::u64, None => 0 }});\n"
         );
         let step = pc.add_step(mps, true, body);
         exps.push(StepExp {
@@ -903,11 +903,11 @@ impl ExecBuilder {
             o
         };
         let mut body = format!(
-            "        let __o1 = crate::rt::Obj::new(::std::mem::size_of::<{tname}>().max(1), ::std::mem::align_of::<{tname}>(), 0x3C);\n        let __o2 = crate::rt::Obj::new(::std::mem::size_of::<{tname}>().max(1), ::std::mem::align_of::<{tname}>(), 0x3D);\n        let __ps: [u64; 3] = [0, __o1.addr(), __o2.addr()];\n"
+            "        let __o1 = crate::rt::Obj::new(::std::mem::size_of::<{tname}>().max(1), ::std::mem::align_of::<{tname}>(), 0x3C);\n        let __o2 = crate::rt::Obj::new(::std::mem::size_of::<{tname}>().max(1), ::std::mem::align_of::<{tname}>(), 0x3D);\n        let __ps: [::core::primitive::u64; 3] = [0, __o1.addr(), __o2.addr()];\n"
         );
         for (k, which) in order.iter().enumerate() {
             body.push_str(&format!(
-                "        if !crate::rt::data({addr:#x}usize, &__ps[{which}].to_le_bytes()) {{ crate::rt::note(\"unmappable\", \"\"); return; }}\n        crate::rt::val(\"stored{k}\", __ps[{which}]);\n        let __g = unsafe {{ {tname}::get() }};\n        crate::rt::val(\"got{k}\", match __g {{ Some(r) => r as *mut {tname} as usize as u64, None => 0 }});\n"
+                "        if !crate::rt::data({addr:#x}usize, &__ps[{which}].to_le_bytes()) {{ crate::rt::note(\"unmappable\", \"\"); return; }}\n        crate::rt::val(\"stored{k}\", __ps[{which}]);\n        let __g = unsafe {{ {tname}::get() }};\n        crate::rt::val(\"got{k}\", match __g {{ Some(r) => r as *mut {tname} as ::core::primitive::usize as ::core::primitive::u64, None => 0 }});\n"
             ));
         }
         let step = pc.add_step(mps, true, body);
@@ -992,7 +992,7 @@ impl ExecBuilder {
         // item of that name instead, the binding below does not type-check (TYPE-ASSERT line)
         let want_ty = code_ty(env, mps, &ev.type_).unwrap_or(want_ty);
         let body = format!(
-            "        let __sz = ::std::mem::size_of::<{want_ty}>().max(1);\n        let __fill = vec![0x77u8; __sz];\n        if !crate::rt::data({addr:#x}usize, &__fill) {{ crate::rt::note(\"unmappable\", \"\"); return; }}\n        let __r: &'static mut {want_ty} = unsafe {{ {fname}() }}; /* TYPE-ASSERT: C15 the type of {fname}() as compiled is the declared type */\n        crate::rt::val(\"got\", __r as *mut {want_ty} as usize as u64);\n        crate::rt::val(\"first_byte\", unsafe {{ *(__r as *mut {want_ty} as *const u8) }} as u64);\n"
+            "        let __sz = ::std::mem::size_of::<{want_ty}>().max(1);\n        let __fill = vec![0x77u8; __sz];\n        if !crate::rt::data({addr:#x}usize, &__fill) {{ crate::rt::note(\"unmappable\", \"\"); return; }}\n        let __r: &'static mut {want_ty} = unsafe {{ {fname}() }}; /* TYPE-ASSERT: C15 the type of {fname}() as compiled is the declared type */\n        crate::rt::val(\"got\", __r as *mut {want_ty} as ::core::primitive::usize as ::core::primitive::u64);\n        crate::rt::val(\"first_byte\", unsafe {{ *(__r as *mut {want_ty} as *const ::core::primitive::u8) }} as ::core::primitive::u64);\n"
         );
         // zero-sized types: reading the first byte is still inside the mapped page
         let step = pc.add_step(mps, true, body);
@@ -1000,7 +1000,7 @@ impl ExecBuilder {
             step,
             case,
             native_only: true,
-            expect: Expect::ExternValue { what: format!("{mps}::{fname}()"), address: addr as u64 },
+            expect: Expect::ExternValue { what: format!("{mps}::{fname}()"), address: addr as ::core::primitive::u64 },
         });
     }
 }
@@ -1019,7 +1019,7 @@ pub fn resolve_target<'a>(
         match &me.kind {
             MKind::Own => {
                 let a = attr_int(&me.func.attributes, "address")?;
-                return Some((Callee::Abs(a as u64), vec![], me.func, refprog::parent_of(path).to_string()));
+                return Some((Callee::Abs(a as ::core::primitive::u64), vec![], me.func, refprog::parent_of(path).to_string()));
             }
             MKind::Forward { field, target } => {
                 let base = env.bases(path).into_iter().find(|(f, _)| f == field)?.1?;
@@ -1088,10 +1088,10 @@ pub fn judge_step(e: &StepExp, log: &RunLog, runtime: &str, bad: &mut Vec<(Strin
                 *stats.entry(format!("{runtime}/C04/outside_offset0_assumption")).or_insert(0) += 1;
                 return;
             }
-            let obj = num(st, "obj").unwrap_or(0) as u64;
-            let recv_off = num(st, "recv_off").unwrap_or(0) as u64;
+            let obj = num(st, "obj").unwrap_or(0) as ::core::primitive::u64;
+            let recv_off = num(st, "recv_off").unwrap_or(0) as ::core::primitive::u64;
             let calls: Vec<&serde_json::Value> = st.events.iter().filter(|v| v["k"] == "stub" || v["k"] == "abs").collect();
-            *stats.entry(format!("{runtime}/{prop}/calls_observed")).or_insert(0) += calls.len() as u64;
+            *stats.entry(format!("{runtime}/{prop}/calls_observed")).or_insert(0) += calls.len() as ::core::primitive::u64;
             *stats.entry(format!("{runtime}/{prop}/wrapper_invocations")).or_insert(0) += 1;
             if calls.len() != 1 {
                 bad.push((format!("{prop}/call-count"), format!("[{runtime}] {what}: expected exactly one callee entry, log has {}", calls.len())));
@@ -1138,7 +1138,7 @@ pub fn judge_step(e: &StepExp, log: &RunLog, runtime: &str, bad: &mut Vec<(Strin
                 bad.push((format!("{prop}/argument-count"), format!("[{runtime}] {what}: callee saw {} words, expected {}", words.len(), k + exp.args.len())));
             }
             if let Some(m) = exp.ret_mask {
-                let ret_seen = num(st, "ret").map(|v| v as u64);
+                let ret_seen = num(st, "ret").map(|v| v as ::core::primitive::u64);
                 let ret_given = c["ret"].as_u64();
                 if ret_seen.map(|r| r & m) != ret_given.map(|r| r & m) {
                     bad.push((format!("{prop}/return-value"), format!("[{runtime}] {what}: callee returned {ret_given:#x?}, wrapper returned {ret_seen:#x?} (mask {m:#x})")));
@@ -1191,7 +1191,7 @@ pub fn judge_step(e: &StepExp, log: &RunLog, runtime: &str, bad: &mut Vec<(Strin
         }
         Expect::ExternValue { what, address } => {
             *stats.entry(format!("{runtime}/C15/accessors_executed")).or_insert(0) += 1;
-            let got = num(st, "got").map(|v| v as u64);
+            let got = num(st, "got").map(|v| v as ::core::primitive::u64);
             if got != Some(*address) {
                 bad.push(("C15/extern-address".into(), format!("[{runtime}] {what}: reference points to {got:#x?}, declared address {address:#x}")));
             }
